@@ -25,6 +25,19 @@ def _strip(events):
     return out
 
 
+def canon_fstring(text: str) -> str:
+    """One spelling for concatenated / split f-strings: f'...{expr}...'."""
+    from .c08 import flatten
+    try:
+        parts = flatten(text)
+    except Exception:
+        return text
+    if not any(isinstance(p, tuple) for p in parts):
+        return repr("".join(parts))
+    body = "".join(p.replace("{", "{{").replace("}", "}}") if isinstance(p, str) else "{" + p[1] + "}" for p in parts)
+    return ast.unparse(ast.parse("f" + repr(body), mode="eval").body)
+
+
 def rule_document(ck: Check, repo: Repo) -> None:
     r = ck.rule("R1", "bill_of_materials: one DESCRIBES relationship and one File section per report of the same sorted list")
     q = f"{RP}.ProjectReport.bill_of_materials"
@@ -48,7 +61,7 @@ def rule_document(ck: Check, repo: Repo) -> None:
         def event(self, text, call, it):
             f = ast.unparse(call.func)
             if f == f"{buf}.write" and call.args:
-                return ("write", ast.unparse(call.args[0]))
+                return ("write", canon_fstring(ast.unparse(call.args[0])))
             if f.endswith(".open"):
                 return ("open", text)
             return None
@@ -213,7 +226,7 @@ def rule_concluded(ck: Check, repo: Repo) -> None:
         def atom(self, text, node, it):
             if text == "add_license_concluded":
                 return "requested"
-            if text.startswith("any((reuse_info.spdx_expressions for reuse_info in "):
+            if text.startswith("any(reuse_info.spdx_expressions for reuse_info in "):
                 return "has_expr"
             if text.endswith(".do_checksum"):
                 return "@dc"
